@@ -29,6 +29,39 @@
     unroll_buffer k = dimension, flag unused; the fresh names are read off the output (the first
                   m statements at `path`, m = number of used indices computed by the model) and
                   checked fresh and distinct
+  stage_mem     path = address of the FIRST statement of the staged block (the stream's path: its block
+                is that one statement); k = number of statements of the block (k = 0 is read as 1);
+                flag = accum.  The window string and the new name are NOT sent; read off the output:
+                * `xs`, extents: the statement at `path` in the output must be `xs : T[sh]`, `xs` not
+                  mentioned in the input;
+                * which nests exist: (#statements at `path` in the output) - 1 - (#statements at
+                  `path` in the input) = 2: both; 1: copy-in only or copy-out only (both readings are
+                  tried, at most one can pass); anything else: rejected;
+                * iterators, guards: peeled off the nests (`for i in seq(0, _)` … then an optional
+                  `if g:` around exactly one statement);
+                * `x` and the window: from the copy-out statement `x[r…] (+)= xs[i…]` if there is one,
+                  else from the copy-in statement `xs[i…] = x[r…]` (accum without copy-out cannot be
+                  read: rejected): a coordinate `r_d` of the form `i_k + lo` (`i_k` the next unused
+                  iterator) is an interval `lo : hi` with `hi` from extent number k of the allocation
+                  (which must be `hi - _`), any other coordinate is a point;
+                * `B'` = the n statements after the allocation (and the copy-in nest).
+                Checked: `stageMem x xs w n iters accum load store gl gs B'` applied at `path` gives
+                the output up to alpha (this contains `stageRelL` and the flag computation), the
+                guards have the form `guardForm` (extents of `x` taken from its allocation in the
+                input; unknown — accepted as they are — when `x` is a procedure argument), all
+                iterators of both nests are distinct and not mentioned in the input.
+  stage_mem_all same, and in addition EVERY access to `x` in the block was redirected
+                (`stageAllRedirected`: the case `Rw.stageMemAll` / the soundness theorem covers).
+                A pair accepted by `stage_mem` and refused by `stage_mem_all` with
+                "stage_mem_all: some access to the buffer was left alone" is outside the theorem.
+  reuse_buffer  path = address of the allocation of `x`, the buffer that is KEPT (first cursor of the
+                API, the stream's `path`); k = encoding of the address of the allocation of `y`, the
+                one that is REPLACED (second cursor, the stream's `args.other`):
+                k = Σ_i d_i * 256^i, d_i = 2 * index_i + (1 if step i is `orelse` else 0) + 1,
+                step 0 = outermost (`decodePath`); flag unused.  The `Local` `reuseBuffer x fill` is
+                applied at the decoded address (`fill` = its last index is 0).  Both addresses must
+                hold allocations of different symbols with equal extents (`exprsEq`; the real
+                assertion is stricter, see RewriteStorage).
 -/
 import ExoModel.RwCheck
 import ExoModel.RewriteStorage
@@ -162,6 +195,172 @@ def dimIdxL (x : Sym) (d : Nat) : List Stmt → List Expr
   | s :: r => dimIdxS x d s ++ dimIdxL x d r
 end
 
+
+/-! ### stage_mem: reading the parameters off the output -/
+
+/-- `for i_0 in seq(0, n_0): … : inner` → iterators, extents, innermost block (loops with lower
+    bound 0, sequential, one statement in the body) -/
+def peelNest : Nat → List Stmt → List Sym × List Expr × List Stmt
+  | fuel + 1, [.loop i (.lit (.int 0)) hi b false] =>
+    let (is, hs, inner) := peelNest fuel b
+    (i :: is, hi :: hs, inner)
+  | _, ss => ([], [], ss)
+
+/-- optional `if g:` (no else) around exactly one statement -/
+def peelGuard : List Stmt → Option (Option Expr × Stmt)
+  | [.ite g [s] []] =>
+    -- a copy statement is never an `if`
+    some (some g, s)
+  | [s] => some (none, s)
+  | _ => none
+
+/-- window from the indices of the access to the original buffer, the iterators and the extents
+    of the staging buffer -/
+def readWin : List Sym → List Expr → List Expr → Option (List WAcc)
+  | [], [], [] => some []
+  | _, _, [] => none
+  | is, sh, e :: r =>
+    match is, sh, e with
+    | i :: is', (.binop .sub hi _) :: sh', .binop .add (.read j []) lo =>
+      if j == i then (readWin is' sh' r).map (fun w => .interval lo hi :: w)
+      else (readWin is sh r).map (fun w => .point e :: w)
+    | _, _, _ => (readWin is sh r).map (fun w => .point e :: w)
+
+/-- extents of the first allocation of `x` found in the block -/
+def findAlloc (x : Sym) : Nat → List Stmt → Option (List Expr)
+  | 0, _ => none
+  | _, [] => none
+  | fuel + 1, s :: r =>
+    let here : Option (List Expr) := match s with
+      | .alloc y sh => if y == x then some sh else none
+      | .loop _ _ _ b _ => findAlloc x fuel b
+      | .ite _ t e => (findAlloc x fuel t).orElse (fun _ => findAlloc x fuel e)
+      | _ => none
+    here.orElse (fun _ => findAlloc x fuel r)
+
+/-- first reading that passes; if none does: the "left alone" verdict of `stage_mem_all` if some
+    reading got that far, else all errors -/
+def firstOk (rs : List (Except String Unit)) : Except String Unit :=
+  match rs.find? (fun r => match r with | .ok _ => true | .error _ => false) with
+  | some r => r
+  | none =>
+    match rs.find? (fun r => match r with | .error e => e.startsWith "stage_mem_all" | .ok _ => false) with
+    | some r => r
+    | none =>
+      if rs.isEmpty then
+        throw "stage_mem: nothing to try (no copy nest names the buffer and the block has no window expression)"
+      else
+        throw (" | ".intercalate (rs.filterMap (fun r => match r with | .error e => some e | .ok _ => none)))
+
+/-- the iterators of one copy nest renamed to those of the other (guards are control expressions) -/
+def renameIters (src dst : List Sym) (e : Expr) : Expr :=
+  (src.zip dst).foldl (fun e p => Expr.substC p.1 (.read p.2 []) e) e
+
+mutual
+/-- symbols of the window expressions below an expression -/
+def winSymsE : Expr → List Sym
+  | .read _ idx => winSymsEs idx
+  | .lit _ => []
+  | .usub a => winSymsE a
+  | .binop _ a b => winSymsE a ++ winSymsE b
+  | .extern _ args => winSymsEs args
+  | .win y _ => [y]
+  | .stride _ _ => []
+  | .readcfg _ _ => []
+def winSymsEs : List Expr → List Sym
+  | [] => []
+  | a :: r => winSymsE a ++ winSymsEs r
+end
+
+mutual
+def winSymsS : Stmt → List Sym
+  | .assign _ idx rhs => winSymsEs idx ++ winSymsE rhs
+  | .reduce _ idx rhs => winSymsEs idx ++ winSymsE rhs
+  | .writecfg _ _ rhs _ => winSymsE rhs
+  | .ite c t e => winSymsE c ++ winSymsL t ++ winSymsL e
+  | .loop _ lo hi b _ => winSymsE lo ++ winSymsE hi ++ winSymsL b
+  | .call _ args => winSymsEs args
+  | .window _ rhs => winSymsE rhs
+  | _ => []
+def winSymsL : List Stmt → List Sym
+  | [] => []
+  | s :: r => winSymsS s ++ winSymsL r
+end
+
+/-- the all-interval window whose staging buffer has these extents -/
+def winOfShape : List Expr → Option (List WAcc)
+  | [] => some []
+  | .binop .sub hi lo :: r => (winOfShape r).map (fun w => .interval lo hi :: w)
+  | _ :: _ => none
+
+/-- one reading (`load`, `store`) of the output of stage_mem; `sa` = output suffix AFTER the allocation -/
+def checkStageMem (all : Bool) (path : Path) (n : Nat) (accum load store : Bool)
+    (before sb : List Stmt) (xs : Sym) (sh : List Expr) (sa after : List Stmt) :
+    Except String Unit := do
+  let nl := if load then 1 else 0
+  let B' := (sa.drop nl).take n
+  let loadN := if load then peelNest 64 (sa.take 1) else ([], [], [])
+  let storeN := if store then peelNest 64 ((sa.drop (nl + n)).take 1) else ([], [], [])
+  -- copy statements
+  let lg ← (if load then
+      match peelGuard loadN.2.2 with
+      | some r => pure (some r)
+      | none => throw "stage_mem: copy-in nest has no single innermost statement"
+    else pure none : Except String (Option (Option Expr × Stmt)))
+  let sg ← (if store then
+      match peelGuard storeN.2.2 with
+      | some r => pure (some r)
+      | none => throw "stage_mem: copy-out nest has no single innermost statement"
+    else pure none : Except String (Option (Option Expr × Stmt)))
+  -- candidates for (the buffer, the window, the iterators the window is expressed with)
+  let fromCopy := fun (x : Sym) (ridx : List Expr) (iters : List Sym) =>
+    match readWin iters sh ridx with
+    | some w => pure [(x, w, iters)]
+    | none => throw "stage_mem: extents of the new buffer / indices of the copy statement do not determine a window"
+  let cands ← (match sg, lg with
+    | some (_, .assign x ridx (.read _ _)), _ => fromCopy x ridx storeN.1
+    | some (_, .reduce x ridx (.read _ _)), _ => fromCopy x ridx storeN.1
+    | some _, _ => throw "stage_mem: copy-out statement is not `x[…] (+)= xs[…]`"
+    | none, some (_, .assign _ _ (.read x ridx)) => fromCopy x ridx loadN.1
+    | none, some (_, .assign _ _ (.lit _)) =>
+      -- accum, zero-filled copy-in, no copy-out: the block touches the buffer through window
+      -- expressions only; neither copy statement names the buffer.  All coordinates are intervals
+      -- (extents `hi - lo` give the window); the buffer is one of those windowed in the block.
+      match winOfShape sh with
+      | some w => pure (((winSymsL (sb.take n)).eraseDups).map (fun x => (x, w, loadN.1)))
+      | none => throw "stage_mem: extents of the new buffer are not of the form hi - lo"
+    | none, _ => throw "stage_mem: cannot read the window off the output (no copy-out, copy-in does not read the buffer)"
+    : Except String (List (Sym × List WAcc × List Sym)))
+  let allIters := loadN.1 ++ storeN.1
+  expect (allIters.all (fun i => !mentionsL i before)) "stage_mem: an iterator of a copy nest is not fresh"
+  expect (allIters.eraseDups.length == allIters.length) "stage_mem: two copy loops share an iterator"
+  firstOk (cands.map (fun (x, w, iters) => do
+    -- the model uses ONE list of iterators for both nests: guards are renamed to it
+    let gl := ((lg.map (·.1)).join).map (renameIters loadN.1 iters)
+    let gs := ((sg.map (·.1)).join).map (renameIters storeN.1 iters)
+    let exts : List (Option Expr) := match findAlloc x 64 before with
+      | some e => e.map some
+      | none => w.map (fun _ => none)
+    expect (!load || loadN.1.length == iters.length) "stage_mem: the two copy nests have different depths"
+    expect (guardForm (stageRIdx w iters) exts gl) "stage_mem: guard of the copy-in nest is not a conjunction of bound conditions of the access"
+    expect (guardForm (stageRIdx w iters) exts gs) "stage_mem: guard of the copy-out nest is not a conjunction of bound conditions of the access"
+    same (rewriteAt (stageMem x xs w n iters accum load store gl gs B') path before) after
+    if all then
+      expect (stageAllRedirected x xs w (sb.take n) B') "stage_mem_all: some access to the buffer was left alone"))
+
+/-- address from its encoding: digit `d = 2 * idx + (1 if orelse) + 1` per step, base 256,
+    outermost step = least significant digit; `none` on a zero digit -/
+def decodePath : Nat → Nat → Option Path
+  | 0, _ => none
+  | fuel + 1, k =>
+    if k == 0 then some []
+    else
+      let d := k % 256
+      if d == 0 then none
+      else
+        let st : Step := if (d - 1) % 2 == 1 then .orelse ((d - 1) / 2) else .body ((d - 1) / 2)
+        (decodePath fuel (k / 256)).map (fun r => st :: r)
+
 /-- `permute_vector` from its base-16 encoding (`n` = rank of the buffer) -/
 def decodePerm (n k : Nat) : List Nat := (List.range n).map (fun i => (k / 16 ^ i) % 16)
 
@@ -288,6 +487,30 @@ def checkStorage (name : String) (path : Path) (k : Nat) (flag : Bool)
         expect (names.eraseDups.length == names.length) "unroll_buffer: two new buffers share a name"
         same (rewriteAt (unrollBuffer k names) path before) after
     | _, _ => throw "unroll_buffer: unexpected shape"
+  | "stage_mem" | "stage_mem_all" =>
+    -- k = block length (0 read as 1), flag = accum; everything else read off the output
+    let n := max k 1
+    match getAt path before, getAt path after with
+    | some sb, some (.alloc xs sh :: sa) =>
+      expect (!mentionsL xs before) "stage_mem: the new buffer's name is not fresh"
+      expect (decide (n ≤ sb.length)) "stage_mem: the block is longer than the rest of its enclosing block"
+      let all := name == "stage_mem_all"
+      let run := fun (load store : Bool) => checkStageMem all path n flag load store before sb xs sh sa after
+      if sa.length == sb.length + 2 then run true true
+      else if sa.length == sb.length + 1 then firstOk [run true false, run false true]
+      else throw "stage_mem: the output does not have one or two statements more than allocation + block"
+    | _, _ => throw "stage_mem: output does not start with an allocation at this path"
+  | "reuse_buffer" =>
+    -- path = allocation of the kept buffer x; k = encoded address of the replaced allocation
+    match decodePath 64 k with
+    | none => throw "reuse_buffer: k does not encode an address"
+    | some other =>
+      match getAt path before, getAt other before, other.getLast? with
+      | some (.alloc x shx :: _), some (.alloc y shy :: _), some st =>
+        expect (x != y) "reuse_buffer: both cursors address the same allocation"
+        expect (exprsEq [] shx shy) "reuse_buffer: the two allocations have different extents"
+        same (rewriteAt (reuseBuffer x (st.idx == 0)) other before) after
+      | _, _, _ => throw "reuse_buffer: path / decoded k do not address two allocations"
   | _ => throw s!"no storage model for {name}"
 
 end Exo.Rw
